@@ -611,8 +611,58 @@ def shuffled(rnd, forest):
     return out
 
 
+def nest_variants(forest):
+    """every forest obtained by moving one clone (with its subtree) under its next sibling as that sibling's first
+    child.  `build_tree` names clones in post-order, and post(c1), post(c2) = post(c2 with c1 as first child): the variant
+    has the same clusters under the same node names - and, when the move is below the last root, the same roots, the
+    same last-added node and the same child count there - but another topology.  A key that summarises a parent by
+    such fields confuses the two."""
+    import copy
+
+    out = []
+
+    def walk(lst, path):
+        for i in range(len(lst) - 1):
+            out.append(path + [i])
+        for i, nd in enumerate(lst):
+            walk(nd[1], path + [i])
+
+    walk(forest, [])
+    res = []
+    for path in out:
+        g = copy.deepcopy(forest)
+        lst = g
+        for i in path[:-1]:
+            lst = lst[i][1]
+        c1 = lst.pop(path[-1])
+        lst[path[-1]][1].insert(0, c1)
+        res.append((len(path), g))
+    return res
+
+
+def deep_forest(rnd, k):
+    """k data points in >= min(k, 4) clones, hung preferably below the newest clone (deep and bushy at the bottom)"""
+    m = rnd.randint(min(k, 4), k)
+    pts = list(range(k))
+    rnd.shuffle(pts)
+    groups = [[d] for d in pts[:m]]
+    for d in pts[m:]:
+        rnd.choice(groups).append(d)
+    nodes = [[sorted(g), []] for g in groups]
+    top = [nodes[0]]
+    for i in range(1, m):
+        r = rnd.random()
+        if r < 0.15:
+            top.append(nodes[i])
+        else:
+            rnd.choice(nodes[max(0, i - 2):i])[1].append(nodes[i])
+    return top
+
+
 def gen_prop_case(rnd, big):
     n = rnd.randint(3, 6 if big else 5)
+    if rnd.random() < 0.35:
+        n = rnd.randint(5, 7 if big else 6)  # room for >= 4 nested clones below one root
     op = rnd.choice([Fraction(0), Fraction(1, 10), Fraction(1, 4)])
     ds = gen_dataset(rnd, n, S=rnd.randint(1, 2), G=rnd.randint(3, 5), bits=3, outlier_prob=op)
     parents = []
@@ -622,7 +672,13 @@ def gen_prop_case(rnd, big):
             parents.append({"k": 0, "forest": None, "outs": []})
         else:
             f, o = random_canon_tree(rnd, k, outliers=(op > 0), max_out=k)
+            if k >= 4 and rnd.random() < 0.6:
+                f, o = deep_forest(rnd, k), []
             parents.append({"k": k, "forest": f, "outs": o})
+            vs = nest_variants(f)
+            deep = [g for d, g in vs if d >= 2] or [g for d, g in vs]
+            if deep and rnd.random() < 0.8:  # same clusters under the same names, another topology
+                parents.append({"k": k, "forest": rnd.choice(deep), "outs": o})
             for _ in range(5):  # the same tree built in another sibling order: other node labels, another key
                 g = shuffled(rnd, f)
                 if g != f and rnd.random() < 0.7:
